@@ -141,4 +141,112 @@ theorem addr_base_exact (e : Endian) (sz : Nat) (hs : sz = 1 ∨ sz = 2 ∨ sz =
   · unfold address; rw [(explicit_base_overrides version f ft attrs pre.length).2.1]; exact ht
   · unfold address; rw [(explicit_base_overrides version f ft attrs pre.length).2.2.1]; exact ht
 
+/-! ## skeleton → split unit hand-over -/
+
+/-- entry `i` of an offsets array at `base`, plus the base -/
+theorem getListOffset_table (e : Endian) (f : Format) (pre post : Bytes) (vals : List Nat) (i : Nat)
+    (hi : i < vals.length) (hb : ∀ v, v ∈ vals → v < 256 ^ f.wordSize) (hsz : i * f.wordSize < 2 ^ 64)
+    (hsum : pre.length + vals[i] < 2 ^ 64) :
+    getListOffset e f (pre ++ vals.flatMap (fun v => toBytes e f.wordSize v) ++ post) pre.length i =
+      .ok (pre.length + vals[i]) := by
+  unfold getListOffset
+  rw [List.append_assoc, Indexed.skipTo_append]
+  simp only [Out.bind_ok]
+  rw [if_neg (by omega)]
+  have hf : ∀ a : Nat, (toBytes e f.wordSize a).length = f.wordSize := fun a => toBytes_length e f.wordSize a
+  have hlen := Index.flatMap_length_const (fun v => toBytes e f.wordSize v) f.wordSize hf vals
+  have hsmall : i * f.wordSize ≤ (vals.flatMap fun v => toBytes e f.wordSize v).length := by
+    rw [hlen, Nat.mul_comm]; exact Nat.mul_le_mul_left _ (by omega)
+  unfold Names.skipTo
+  rw [if_pos (by rw [List.length_append]; omega)]
+  simp only [Out.bind_ok]
+  rw [List.drop_append_of_le_length hsmall, Index.drop_flatMap_const _ _ hf, List.drop_eq_getElem_cons hi,
+    List.flatMap_cons, List.append_assoc, Indexed.readWord_enc e f _ _ (hb _ (List.getElem_mem hi))]
+  simp only [Out.bind_ok]
+  rw [if_neg (by omega)]
+  rfl
+
+/-- **What a split unit takes over from its skeleton** (`Unit::copy_relocated_attributes`): always
+`low_pc` and the address base; the ranges base only before DWARF 5.  A DWARF ≥ 5 split unit keeps
+its own range-list, location-list and string-offsets bases. -/
+theorem handover (self other : UnitState) :
+    (copyRelocated self other).lowPc = other.lowPc ∧
+    (copyRelocated self other).bases.addr = other.bases.addr ∧
+    (copyRelocated self other).bases.loclists = self.bases.loclists ∧
+    (copyRelocated self other).bases.strOffsets = self.bases.strOffsets ∧
+    (5 ≤ self.version → (copyRelocated self other).bases.rnglists = self.bases.rnglists) ∧
+    (self.version < 5 → (copyRelocated self other).bases.rnglists = other.bases.rnglists) ∧
+    (copyRelocated self other).version = self.version ∧ (copyRelocated self other).format = self.format := by
+  refine ⟨rfl, rfl, rfl, rfl, ?_, ?_, rfl, rfl⟩
+  · intro h; simp [copyRelocated, Nat.not_lt.mpr h]
+  · intro h; simp [copyRelocated, h]
+
+/-- … so after the hand-over a DWARF ≥ 5 split unit without base attributes indexes its own
+`.debug_rnglists.dwo` / `.debug_loclists.dwo` from just behind their 12/20-byte headers, whatever
+`DW_AT_rnglists_base` the skeleton has (absent, 12, or the offset of a later contribution of the
+main file), and addresses/`low_pc` are the skeleton's -/
+theorem split_unit_bases_v5 (version : Nat) (hv : 5 ≤ version) (f : Format)
+    (skAttrs : List (Nat × Nat)) (skLowPc : Option Nat) :
+    let u := copyRelocated (newUnit version f .dwo [] none) (newUnit version f .main skAttrs skLowPc)
+    u.bases.rnglists = listsHeaderSize f ∧ u.bases.loclists = listsHeaderSize f ∧
+      u.bases.strOffsets = initialLengthSize f + 4 ∧
+      u.bases.addr = (unitBases version f .main skAttrs).addr ∧ u.lowPc = skLowPc.getD 0 := by
+  have h : version ≥ 5 ∧ FileType.dwo = FileType.dwo := ⟨hv, rfl⟩
+  simp [copyRelocated, newUnit, unitBases, defaults, rnglistsBaseDefault, loclistsBaseDefault,
+    strOffsetsBaseDefault, h, Nat.not_lt.mpr hv]
+
+/-- a GNU (version ≤ 4) split unit gets the skeleton's `DW_AT_GNU_ranges_base`, which
+`ranges_offset_from_raw` adds to every raw `.debug_ranges` offset of the unit; from DWARF 5 on
+nothing is added -/
+theorem split_unit_ranges_base_v4 (version : Nat) (f : Format) (skAttrs : List (Nat × Nat))
+    (skLowPc : Option Nat) (self parent : Sections) (raw : Nat) (hraw : raw < 2 ^ 64) :
+    let u := copyRelocated (newUnit version f .dwo [] none) (newUnit version f .main skAttrs skLowPc)
+    let s := makeDwo self parent
+    (version < 5 → u.bases.rnglists = (unitBases version f .main skAttrs).rnglists ∧
+      rangesOffsetFromRaw u s raw = (raw + (unitBases version f .main skAttrs).rnglists) % 2 ^ 64) ∧
+    (5 ≤ version → rangesOffsetFromRaw u s raw = raw) ∧
+    s.fileType = .dwo ∧ s.debugAddr = parent.debugAddr ∧ s.debugRanges = parent.debugRanges ∧
+      s.debugRnglists = self.debugRnglists ∧ s.debugLoclists = self.debugLoclists := by
+  have _ := hraw
+  refine ⟨?_, ?_, rfl, rfl, rfl, rfl, rfl⟩
+  · intro h
+    simp [copyRelocated, newUnit, rangesOffsetFromRaw, makeDwo, h]
+  · intro h
+    simp [copyRelocated, newUnit, rangesOffsetFromRaw, makeDwo, Nat.not_lt.mpr h]
+
+/-- **`ranges_offset(i)` / `locations_offset(i)` of a split unit return the i-th entry of the
+offsets array of the unit's OWN table** (relative to the end of that table's header), after the
+hand-over from any skeleton: DWARF ≥ 5, either format, either byte order; the sections are the
+`.dwo`'s (or the unit's `.dwp` contributions): a standard header, the offsets array, the lists. -/
+theorem ranges_offset_after_handover_exact (e : Endian) (f : Format) (version : Nat) (hv : 5 ≤ version)
+    (skAttrs : List (Nat × Nat)) (skLowPc : Option Nat) (self parent : Sections)
+    (n a : Nat) (vals : List Nat) (lists : Bytes) (i : Nat) (hi : i < vals.length)
+    (hb : ∀ v, v ∈ vals → v < 2 ^ (8 * f.wordSize)) (hsz : i * f.wordSize < 2 ^ 64)
+    (hsum : listsHeaderSize f + vals[i] < 2 ^ 64) :
+    let u := copyRelocated (newUnit version f .dwo [] none) (newUnit version f .main skAttrs skLowPc)
+    let table := stdListsHeader e f n a vals.length ++ vals.flatMap (fun v => toBytes e f.wordSize v) ++ lists
+    (self.debugRnglists = table →
+      rangesOffset e u (makeDwo self parent) i = .ok (listsHeaderSize f + vals[i])) ∧
+    (self.debugLoclists = table →
+      locationsOffset e u (makeDwo self parent) i = .ok (listsHeaderSize f + vals[i])) := by
+  intro u table
+  obtain ⟨hr, hl, _, _, _⟩ := split_unit_bases_v5 version hv f skAttrs skLowPc
+  have hlen : (stdListsHeader e f n a vals.length).length = listsHeaderSize f := by
+    simp [stdListsHeader, listsHeaderSize, List.length_append, toBytes_length, initLen_length]
+  have hb' : ∀ v, v ∈ vals → v < 256 ^ f.wordSize := fun v hv' => by rw [pow256]; exact hb v hv'
+  have key := getListOffset_table e f (stdListsHeader e f n a vals.length) lists vals i hi hb' hsz
+    (by rw [hlen]; exact hsum)
+  rw [hlen] at key
+  constructor
+  · intro hsec
+    show getListOffset e u.format (makeDwo self parent).debugRnglists u.bases.rnglists i = _
+    rw [hr]
+    show getListOffset e f self.debugRnglists (listsHeaderSize f) i = _
+    rw [hsec]; exact key
+  · intro hsec
+    show getListOffset e u.format (makeDwo self parent).debugLoclists u.bases.loclists i = _
+    rw [hl]
+    show getListOffset e f self.debugLoclists (listsHeaderSize f) i = _
+    rw [hsec]; exact key
+
 end Gimli.Props.C17
